@@ -1,6 +1,6 @@
 (* C05 - a process crash at any point never loses or tears an object.  Statements only. *)
 From Coq Require Import List ZArith NArith.
-From DOS Require Import Base Store StoreProofs StoreLemmas Programs ProgramsProofs PackProofs MaintProofs RepackProofs AddPackProofs ImportProofs.
+From DOS Require Import Base Store StoreProofs StoreLemmas Programs ProgramsProofs PackProofs MaintProofs RepackProofs AddPackProofs ImportProofs History.
 Import ListNotations.
 
 Section C05.
@@ -98,6 +98,23 @@ Theorem C05_import_every_crash_point : forall w l bs nh twice fs m,
   let w' := crash (run_events (w, l) (firstn m (p_import w nh twice fs bs))) in
   Inv H inflate w' /\ (forall k c, stored inflate w k = Some c -> stored inflate w' k = Some c).
 Proof. intros w l bs nh twice fs m HI Hp Ho. destruct (import_crash_safe H inflate H_inj w l bs nh twice fs m HI Hp Ho) as (A & B & _). split; assumption. Qed.
+(* a pack_all_loose call that fills ANY number of packs (segments: the objects per pack, Layout.segs; ids: PickPack.pick), with or
+   without fsync and per-pack clean: every crash point of the whole call satisfies the invariant, and after the call every key reads
+   back exactly as before *)
+Theorem C05_pack_all_loose_over_any_number_of_packs : forall fs clean (segs : list (Z * list pobj)) s,
+  Inv H inflate (fst s) -> pending (snd s) = [] ->
+  Forall (obj_ok inflate (fst s)) (concat (map snd segs)) -> NoDup (map okey (concat (map snd segs))) ->
+  (forall x, In x (concat (map snd segs)) -> ~ In (okey x) (map rkey (db (fst s)))) ->
+  let ops := map (fun sg => OPack (fst sg) (snd sg) fs clean) segs in
+  (forall n, Inv H inflate (crash (run_events s (firstn n (hist_trace H s ops))))) /\
+  Inv H inflate (fst (run_hist H s ops)) /\ forall k, stored inflate (fst (run_hist H s ops)) k = stored inflate (fst s) k.
+Proof. exact (pack_multi H inflate H_inj). Qed.
+
+(* ANY history of operations, killed after ANY number of primitives: the invariant holds *)
+Theorem C05_every_crash_point_of_every_history : forall ops s,
+  Inv H inflate (fst s) -> pending (snd s) = [] -> pre_hist H inflate s ops ->
+  forall n, Inv H inflate (crash (run_events s (firstn n (hist_trace H s ops)))).
+Proof. exact (history_every_crash_point H inflate H_inj). Qed.
 End C05.
 Print Assumptions C05_monitor_sound.
 Print Assumptions C05_add_loose_every_crash_point.
@@ -109,3 +126,5 @@ Print Assumptions C05_add_to_pack_every_crash_point.
 Print Assumptions C05_new_handle_never_wrong_bytes.
 Print Assumptions C05_any_spill.
 Print Assumptions C05_import_every_crash_point.
+Print Assumptions C05_pack_all_loose_over_any_number_of_packs.
+Print Assumptions C05_every_crash_point_of_every_history.
